@@ -237,6 +237,50 @@ def finish(pid, mod, ctx, acc, t0):
     return 0
 
 
+def _replay_one(args):
+    modname, ctx, path = args
+    try:
+        mod = importlib.import_module(modname)
+        with open(path) as f:
+            body = json.load(f)
+        acc = Acc()
+        mod.replay(ctx, body['case'], acc)
+        return ('ok', path, [v.to_json() for v in acc.violations])
+    except BaseException:
+        return ('err', path, traceback.format_exc())
+
+
+def replay_regressions(pid, mod, ctx):
+    """Seconds-long replay tier: the shrunk cases of every repaired finding
+    and of every seeded change this check once caught (regressions/<ID>/),
+    re-executed by plain Python before any generation."""
+    d = os.path.join(HOME, 'regressions', pid)
+    t0 = time.time()
+    files = sorted(os.path.join(d, f) for f in os.listdir(d)
+                   if f.endswith('.json')) if os.path.isdir(d) else []
+    out = {'n': len(files), 'violations': [], 'wall_s': 0.0}
+    if not files:
+        return out
+    jobs = [(mod.__name__, ctx, f) for f in files]
+    pool = mp.get_context('fork').Pool(min(ctx['nproc'], len(jobs)))
+    try:
+        results = pool.map(_replay_one, jobs, chunksize=1)
+    finally:
+        pool.close()
+        pool.join()
+    for status, path, payload in results:
+        if status == 'err':
+            raise HarnessError('regression replay %s failed:\n%s' %
+                               (path, payload))
+        for v in payload:
+            vv = Violation.from_json(v)
+            vv.message = 'regression case %s: %s' % (
+                os.path.relpath(path, HOME), vv.message)
+            out['violations'].append(vv)
+    out['wall_s'] = round(time.time() - t0, 1)
+    return out
+
+
 def main(argv=None):
     ap = argparse.ArgumentParser()
     ap.add_argument('pid')
@@ -272,9 +316,13 @@ def main(argv=None):
                 return 0
             print('replay: property held on this case')
             return 0
+        reg = replay_regressions(pid, mod, ctx)
         acc = mod.run(ctx)
         if acc.evaluations == 0:
             raise HarnessError('no case was evaluated')
+        acc.violations.extend(reg['violations'])
+        acc.extra['regression_cases_replayed'] = reg['n']
+        acc.extra['regression_replay_wall_s'] = reg['wall_s']
         return finish(pid, mod, ctx, acc, t0)
     except HarnessError as e:
         print('HARNESS-ERROR property=%s: %s' % (pid, e))
